@@ -421,9 +421,30 @@ func drawEntry(t *rapid.T) EntryCase {
 		v := cfg.Value(3).Draw(t, "v")
 		a, b = v.Text(false), v.Text(true)
 	}
+	// one case in four: the argument that stays intact is a value of ANY type (a scalar, null, an
+	// array where an object is expected ...): whatever route such an argument makes the function
+	// take, the other argument must still pass the gate. Judged only when the other one is damaged.
+	other := -1
+	if c.Func != "DecodePatch" && gen.OneIn(t, 4, "anyshape") {
+		other = gen.Uniform(t, 0, 1, "anyside")
+		w := cfg.Value(2).Draw(t, "anyv").Text(false)
+		if other == 0 {
+			a = w
+		} else {
+			b = w
+		}
+	}
 	c.A, c.B = pad(t, a, "pa"), pad(t, b, "pb")
 	if c.Func == "DecodePatch" {
 		c.B = nil
+	}
+	if other >= 0 {
+		if other == 0 {
+			c.B = damage(t, c.B, "dbo")
+		} else {
+			c.A = damage(t, c.A, "dao")
+		}
+		return c
 	}
 	// damage one argument in about half of the cases
 	switch gen.Uniform(t, 0, 3, "dmg") {
@@ -576,7 +597,7 @@ func checkEntry(c EntryCase) ev.Verdict {
 
 var entryUnit = ev.Unit[EntryCase]{
 	Name: "entry-points",
-	Rule: "for each of DecodePatch, Apply, MergePatch, MergeMergePatches, CreateMergePatch, Equal: arguments of the right shape (taken from C01/C02/C03/C11: object/array document and applicable patch; non-null merge document; two objects; objects or equal-length arrays of objects; any equal pair) padded with random leading/trailing SP HT LF CR, and in half of the cases one argument damaged (truncated, byte flipped/deleted, trailing or leading junk); oracle: recogniser says ill-formed => error (Equal: false), well-formed => accepted; non-trivial = whitespace-padded accepted case, or ill-formed case of >= 4 bytes",
+	Rule: "for each of DecodePatch, Apply, MergePatch, MergeMergePatches, CreateMergePatch, Equal: arguments of the right shape (taken from C01/C02/C03/C11: object/array document and applicable patch; non-null merge document; two objects; objects or equal-length arrays of objects; any equal pair) padded with random leading/trailing SP HT LF CR, and in half of the cases one argument damaged (truncated, byte flipped/deleted, trailing or leading junk); in one case of four the argument that stays intact is a value of any JSON type instead (a route chosen by its type must not bypass the gate for the damaged one); oracle: recogniser says ill-formed => error (Equal: false), well-formed => accepted; non-trivial = whitespace-padded accepted case, or ill-formed case of >= 4 bytes",
 	Draw: drawEntry, Check: checkEntry,
 }
 
